@@ -301,7 +301,11 @@ fn run_api(_ctx: &Ctx, case: &Value, tag: usize, rep: &mut Report, mb: &mut Mode
         }
         // expected stop decision for the next commit, computed on a low-level clone
         let r = rng.below(12);
-        if r == 0 {
+        // while grammar-forced text is emitted through a canonical tokenizer the mask narrows to the single canonical
+        // token although other tokenisations of the forced bytes are accepted (C01's documented exception): tokens
+        // outside such a mask are not illegal calls
+        let narrowed = case["canonical"].as_bool().unwrap_or(false) && mask.len() == 1;
+        if r == 0 && !narrowed {
             // illegal: token not in the mask
             let bad: Vec<u32> = (0..vocab_n).filter(|t| mask.binary_search(t).is_err()).collect();
             if let Some(&t) = bad.first() {
